@@ -56,7 +56,6 @@ def eqbytes(a, b):
     if not E.possible(inr):
         return wrapbool(la == lb)
     # evaluate contents only under the in-range assumption
-    E.qn = ('eqb', k.get_id())
     saved = len(E.pc)
     E.pc.append(inr)
     try:
